@@ -55,8 +55,8 @@ def search(deadline, rng):
                 continue
             exp_nodes = int(rr['result']['nodes'])
         res = r['result']
-        if int(res['header_decls']) != npub or int(res['header_nodes']) != exp_nodes:
+        if int(res['header_decls']) != npub or int(res['header_nodes']) != exp_nodes or int(res.get('header_malformed', 0)) != 0 or int(res.get('malformed', 0)) != 0:
             return {'mode': 'delta', 'input_utf8_lossy': module, 'input_hex': module.encode().hex(), 'observed': res,
                     'expected': 'header_decls=%d header_nodes=%d (= parse of the public declarations alone, bodies removed)' % (npub, exp_nodes),
-                    'expect_result': {'header_decls': npub, 'header_nodes': exp_nodes}, 'modules_tried': tried}
+                    'expect_result': {'header_decls': npub, 'header_nodes': exp_nodes, 'header_malformed': 0, 'malformed': 0}, 'modules_tried': tried}
     return None
